@@ -19,6 +19,10 @@ for _e in (ValueError, TypeError, KeyError, RuntimeError, RecursionError, Custom
     EXC_CLASSES[_e.__name__] = _e
 
 
+class Abort(BaseException):
+    """not an Exception: escapes every printer-failure handler (like KeyboardInterrupt)"""
+
+
 class GObj:
     """object with a registered printer pretty_call(ctx, target, *args)"""
     def __init__(self, cname, idx, fault='none', exc='ValueError'):
@@ -43,6 +47,8 @@ def ensure_registered():
     def gobj_printer(value, ctx):
         if value.fault == 'raise':
             raise EXC_CLASSES[value.exc]('boom-%d' % value.idx)
+        if value.fault == 'abort':
+            raise Abort('abort-%d' % value.idx)
         if value.fault == 'nondoc':
             return 42
         doc = pretty_call(ctx, valgen.call_target(value.cname), *value.args)
@@ -146,6 +152,8 @@ def run_impl(obj, cfg):
             out = pformat(obj, **cfg)
         except Exception as e:
             out = 'EXC %s' % type(e).__name__
+        except Abort:
+            out = 'ABORTED'
     return out, [str(w.message) for w in ws]
 
 
